@@ -128,6 +128,7 @@ type Instance struct {
 	NumCPU   int            `json:"-"`
 	CheckAlloc bool         `json:"-"`
 	Tier     int            `json:"-"` // 0 quick+thorough, 1 thorough only
+	Solvers  string         `json:"-"` // portfolio override (comma separated)
 }
 
 func (in *Instance) Name() string {
